@@ -91,7 +91,7 @@ class Overlay:
                 for kv in re.findall(r'(\w+)=("[^"]*"|\S+)', " ".join(parts[1:])):
                     k, v = kv[0], kv[1].strip('"')
                     if k == "timeout":
-                        v = int(v)
+                        v = min(int(v), int(os.environ.get("VERIF_TIMEOUT_CAP", "100000")))
                     setattr(pending, k, v)
             elif s.startswith("// @ob ") and pending is not None:
                 pending.obligations.append(s[len("// @ob "):].strip())
@@ -360,6 +360,18 @@ def run_kani(ws, harnesses, logdir):
                 results[h.name] = dict(status="undecided", reason=why, checks=0, ok=0, covers_ok=0, failed=[], soft=[], cover_bad=[], solver_s=None, symex_s=None, duration_s=0)
             if us:
                 extra += ["--unwindset", ",".join(us)]
+            if problems:
+                # do not spend solver time on harnesses whose loop anchors were lost
+                bad = {h.full for h, _ in problems}
+                k = 0
+                while k < len(cmd):
+                    if cmd[k] == "--harness" and cmd[k + 1] in bad:
+                        del cmd[k:k + 2]
+                    else:
+                        k += 1
+                hs = [h for h in hs if h.full not in bad]
+                if not hs:
+                    continue
         if extra:
             cmd += ["--cbmc-args"] + extra
         waves = (len(hs) + jobs - 1) // jobs
